@@ -295,7 +295,41 @@ pub fn c18(case: &Case, q: usize, crash: &Option<CrashPoint>) -> C18Result {
                 let got = obs.queues.get(&name).cloned();
                 res.observations += 1;
                 if got != want {
-                    res.failures.push(fail("C18", "content-differs-after-crash", b, format!("crash inside op {} {} (addressed to another queue): after recovery the queue's existence/records/next position differ from its projection ({} vs {} records)", b, full.steps[b].op.short(), got.map(|g| g.recs.len() as i64).unwrap_or(-1), want.map(|g| g.recs.len() as i64).unwrap_or(-1))));
+                    res.failures.push(fail("C18", "content-differs-after-crash", b, format!("crash inside op {} {} (addressed to another queue): after recovery the queue's existence/records/next position differ from its projection ({} vs {} records)", b, full.steps[b].op.short(), got.as_ref().map(|g| g.recs.len() as i64).unwrap_or(-1), want.as_ref().map(|g| g.recs.len() as i64).unwrap_or(-1))));
+                } else if got.is_some() {
+                    // keep using the queue on the recovered log and on the projection (which never crashed): whatever
+                    // the other queue's interrupted call left behind must not change what this queue returns later
+                    let cont = [
+                        Op::Append { q, pos: None, lens: vec![40], uid: 4_000_001 },
+                        Op::Append { q, pos: None, lens: vec![45_000], uid: 4_000_003 },
+                        Op::Restart { policy: None },
+                        Op::Append { q, pos: None, lens: vec![7, 0, 300], uid: 4_000_005 },
+                        Op::Restart { policy: None },
+                    ];
+                    let mut m = full.models[b].clone();
+                    m.rebase(&obs);
+                    let mut rec = Driver::adopt(_w, m, case.probe_seed ^ 0xC18C);
+                    rec.light = true;
+                    rec.lenient = true;
+                    rec.keep_obs = true;
+                    // the projection up to the corresponding point, on a fresh disk
+                    let mut pc2 = pc.clone();
+                    pc2.ops.truncate(j.map(|j| j + 1).unwrap_or(0).max(1));
+                    let mut prj = Driver::new(&pc2);
+                    prj.light = true;
+                    prj.lenient = true;
+                    prj.keep_obs = true;
+                    prj.run_all(&pc2.ops);
+                    for op in &cont {
+                        let a = rec.step(op.clone());
+                        let bb = prj.step(op.clone());
+                        res.observations += 1;
+                        let (va, vb) = (q_view(rec.obs_log.last().unwrap_or(&None), &name), q_view(prj.obs_log.last().unwrap_or(&None), &name));
+                        if a.logical() != bb.logical() || va != vb {
+                            res.failures.push(fail("C18", "content-differs-after-crash-and-continuation", b, format!("crash inside op {} {} (addressed to another queue), recovery, then {} on this queue: outcome / content differ from the projection that never crashed ({:?} vs {:?})", b, full.steps[b].op.short(), op.short(), a.logical(), bb.logical())));
+                            break;
+                        }
+                    }
                 }
             }
         }
